@@ -101,15 +101,19 @@ def run_group(harnesses, timeout_s, jobs, extra_args=None, playback=False, log_p
         "--harness-timeout", f"{int(timeout_s)}s",
         "--export-json", jpath,
     ]
+    mem_kb = MEM_KB
     if playback:
-        cmd += ["-Z", "concrete-playback", "--concrete-playback=print"]
+        # traces for every reachability check make the JSON the driver parses enormous: drop them
+        # here and give the (single) process tree more address space
+        cmd += ["-Z", "concrete-playback", "--concrete-playback=print", "--no-assertion-reach-checks"]
+        mem_kb = max(MEM_KB, 44 * 1024 * 1024)
     for h in harnesses:
         cmd += ["--harness", h]
     if jobs > 1 and len(harnesses) > 1:
         cmd += ["-j", str(min(jobs, len(harnesses)))]
     if extra_args:
         cmd += extra_args
-    shell = f"ulimit -v {MEM_KB}; exec " + " ".join(_q(c) for c in cmd)
+    shell = f"ulimit -v {mem_kb}; exec " + " ".join(_q(c) for c in cmd)
     n_waves = (len(harnesses) + max(jobs, 1) - 1) // max(jobs, 1)
     outer = 600 + timeout_s * n_waves + 120
     t0 = time.time()
